@@ -59,7 +59,7 @@ type schedState struct {
 // allHookSites are the simYield sites compiled into /repo with the verif tag.
 var allHookSites = [...]string{"optimizer.parsed", "optimizer.planned", "filter.row", "filter.batch", "regexp.row",
 	"call.row", "alias.row", "call.batch", "alias.batch", "aggr.emit", "aggr.update", "order.collect", "order.emit",
-	"project.row", "project.batch", "limit.row", "error.render"}
+	"project.row", "project.batch", "limit.row", "error.render", "lexer.done", "parser.expr", "checker.call"}
 
 //go:norace
 func strEq(a, b string) bool {
